@@ -85,6 +85,7 @@ type FileRestorer struct {
 	cursor          token.Pos
 	nodeDecl        map[*ast.Object]dst.Node // Objects that have a ast.Node Decl (look up after file has been rendered)
 	nodeData        map[*ast.Object]dst.Node // Objects that have a ast.Node Data (look up after file has been rendered)
+	deferred        []*ast.Object            // the Objects of nodeDecl / nodeData in the order they were met (the links are resolved in this order)
 	cursorAtNewLine token.Pos                // The cursor position directly after adding a newline decoration (or a line comment which ends in a "\n"). If we're still at this cursor position when we add a line space, reduce the "\n" by one.
 	packageNames    map[string]string        // names in the code of all imported packages ("." for dot-imports)
 }
@@ -124,6 +125,7 @@ func (r *FileRestorer) RestoreFile(file *dst.File) (*ast.File, error) {
 	r.lines = []int{0} // initialise with the first line at Pos 0
 	r.nodeDecl = map[*ast.Object]dst.Node{}
 	r.nodeData = map[*ast.Object]dst.Node{}
+	r.deferred = nil
 	r.packageNames = map[string]string{}
 	r.comments = []*ast.CommentGroup{}
 	r.cursorAtNewLine = 0
@@ -154,14 +156,18 @@ func (r *FileRestorer) RestoreFile(file *dst.File) (*ast.File, error) {
 		// perhaps it doesn't matter?
 		// Restoring a declaring node can meet further objects, whose links are deferred in turn:
 		// repeat until none is left.
-		for len(r.nodeDecl) > 0 || len(r.nodeData) > 0 {
-			for o, dn := range r.nodeDecl {
-				delete(r.nodeDecl, o)
-				o.Decl = r.restoreNode(dn, "", "", "", true)
-			}
-			for o, dn := range r.nodeData {
-				delete(r.nodeData, o)
-				o.Data = r.restoreNode(dn, "", "", "", true)
+		for len(r.deferred) > 0 {
+			objects := r.deferred
+			r.deferred = nil
+			for _, o := range objects {
+				if dn, ok := r.nodeDecl[o]; ok {
+					delete(r.nodeDecl, o)
+					o.Decl = r.restoreNode(dn, "", "", "", true)
+				}
+				if dn, ok := r.nodeData[o]; ok {
+					delete(r.nodeData, o)
+					o.Data = r.restoreNode(dn, "", "", "", true)
+				}
 			}
 		}
 	}
@@ -804,6 +810,7 @@ func (r *FileRestorer) restoreObject(o *dst.Object) *ast.Object {
 		// Can't use restoreNode here because we aren't at the right cursor position, so we store a link
 		// to the Object and Node so we can look the Nodes up in the cache after the file is fully processed.
 		r.nodeDecl[out] = decl
+		r.deferred = append(r.deferred, out)
 	case nil:
 	default:
 		panic(fmt.Sprintf("o.Decl is %T", o.Decl))
@@ -818,6 +825,7 @@ func (r *FileRestorer) restoreObject(o *dst.Object) *ast.Object {
 		// Can't use restoreNode here because we aren't at the right cursor position, so we store a link
 		// to the Object and Node so we can look the Nodes up in the cache after the file is fully processed.
 		r.nodeData[out] = data
+		r.deferred = append(r.deferred, out)
 	case nil:
 	default:
 		panic(fmt.Sprintf("o.Data is %T", o.Data))
